@@ -51,17 +51,16 @@ def _step_scale(x, y, z, *, t, times, values):
     return v
 
 
-class CurrentFunc:
-    """Time-dependent balanced terminal currents: I_k(t) = base_k * (1 + amp*sin(w t))."""
+def CurrentFunc(base, amp, w):
+    """Time-dependent balanced terminal currents: I_k(t) = base_k * (1 + amp*sin(w t)),
+    as a plain function (the documented form of a time-dependent terminal current)."""
+    base = dict(base)
 
-    def __init__(self, base, amp, w):
-        self.base = dict(base)
-        self.amp = amp
-        self.w = w
+    def terminal_currents(t):
+        f = 1.0 + amp * math.sin(w * t)
+        return {k: v * f for k, v in base.items()}
 
-    def __call__(self, t):
-        f = 1.0 + self.amp * math.sin(self.w * t)
-        return {k: v * f for k, v in self.base.items()}
+    return terminal_currents
 
 
 def eps_spatial_vec(r, *, vectorized=True):
